@@ -18,7 +18,7 @@ ID = "C05"
 LEVEL = "exploration"
 RULE = ("each case runs in a fresh initiator process: topology (1-4 gateways over popen / popen//python= / socket//installvia / popen//via), "
         "worker exec model (thread, main_thread_only, gevent), remote state per gateway (idle, blocked in receive, busy, sleeping, catching or "
-        "ignoring interrupts, SIGSTOPped, already SIGKILLed, daemon threads, flooding a channel), timeout in {0.1, 0.5, 1.0}; then "
+        "ignoring interrupts, SIGSTOPped, already SIGKILLed, daemon threads, flooding a channel), EOF although alive: descriptors closed or execv into another program), timeout in {0, 0.1, 0.5, 1.0}; then "
         "group.terminate(timeout). Observed: return time, len(group), /proc liveness of every locally started child pid (logged by a wrapped "
         "subprocess.Popen). Plus failing makegateway calls (taken explicit id, explicit id colliding with a later auto id, dead interpreter). "
         "distinct = distinct (topology, states, models, timeout) cases")
@@ -32,7 +32,8 @@ MINIMUM = {"terminate_cases": 20, "distinct": 15, "failing_makegateway_cases": 3
 SHARD_TIMEOUT = {"quick": 240, "thorough": 3000}
 PAR = 8
 
-STATES = ["idle", "blocked", "busy", "sleep", "swallow_kbi", "sigint_ignored", "stopped", "killed", "daemon_threads", "flood"]
+STATES = ["idle", "blocked", "busy", "sleep", "swallow_kbi", "sigint_ignored", "stopped", "killed", "daemon_threads", "flood",
+          "fds_closed_alive", "execv_sleep"]
 GEVENT_STATES = ["idle", "blocked", "gevent_sleep", "gevent_busy"]
 
 
@@ -67,8 +68,8 @@ def gen_case(rng):
                 g["execmodel"] = "thread"
                 if g["activity"].startswith("gevent") or g["activity"] == "sigint_ignored":
                     g["activity"] = "blocked"
-                if g["activity"] in ("stopped", "killed"):
-                    g["activity"] = "sleep"  # same process as the master: would stop/kill the master itself
+                if g["activity"] in ("stopped", "killed", "fds_closed_alive", "execv_sleep"):
+                    g["activity"] = "sleep"  # same process as the master: would stop/kill/replace the master itself
             has_via |= spec == "via"
         gws.append(g)
     # some members are retired with gw.exit() before terminate() is called (only gateways nobody else depends on)
@@ -76,7 +77,7 @@ def gen_case(rng):
     pre_exit = [g["id"] for g in gws if g["id"] not in masters and g["spec"] != "socket" and rng.random() < 0.25]
     if len(pre_exit) == len(gws):
         pre_exit = pre_exit[:-1]
-    return {"gateways": gws, "action": "terminate", "timeout": rng.choice((0.1, 0.5, 1.0)), "has_via": has_via, "pre_exit": pre_exit}
+    return {"gateways": gws, "action": "terminate", "timeout": rng.choice((0, 0.1, 0.5, 1.0)), "has_via": has_via, "pre_exit": pre_exit}
 
 
 def bound_for(case):
@@ -188,6 +189,14 @@ def run_shard(spec):
         cases[0] = {"gateways": [{"spec": "popen", "id": "g0", "execmodel": "thread", "activity": "stopped"},
                                  {"spec": "via", "id": "g1", "execmodel": "thread", "activity": "idle", "master": "g0"}],
                     "action": "terminate", "timeout": 0.1, "has_via": True, "pre_exit": [], "deadline": 25}
+    if spec["shard"] == 1:
+        # members whose connection has ended although the process lives on; timeout 0 with a member that cannot be killed locally
+        cases[0] = {"gateways": [{"spec": "popen", "id": "g0", "execmodel": "thread", "activity": "execv_sleep"},
+                                 {"spec": "python", "id": "g1", "execmodel": "main_thread_only", "activity": "fds_closed_alive"}],
+                    "action": "terminate", "timeout": 0.5, "has_via": False, "pre_exit": []}
+        cases[1] = {"gateways": [{"spec": "popen", "id": "g0", "execmodel": "thread", "activity": "stopped"},
+                                 {"spec": "socket", "id": "g1", "execmodel": "thread", "activity": "idle", "master": "g0"}],
+                    "action": "terminate", "timeout": 0, "has_via": False, "pre_exit": []}
     out: list = []
     sem = threading.Semaphore(spec["conc"])
 
@@ -222,7 +231,6 @@ def run_shard(spec):
         res.case(core.h64(key))
         td = next(e for e in r["events"] if e.get("event") == "terminate_done")
         bound = bound_for(c)
-        ratio = td["seconds"] / c["timeout"]
         worst[str(c["timeout"])] = max(worst.get(str(c["timeout"]), 0), td["seconds"])
         if len(res.samples) < 4:
             res.sample({"case": key, "terminate_s": td["seconds"], "bound_s": bound, "local_children": len(r.get("local", []))})
